@@ -70,9 +70,9 @@ def prepare():
 # ------------------------------------------------------------------------------------------------------------------
 # stage 'phases'
 
-def _run_precip(case, order, eps=0.0):
+def _run_precip(case, order, eps=0.0, eps_t=0.0):
     """One run of the analytic multi-phase model with the phases listed in `order` (eps: relative perturbation of the
-    initial composition, used for the conditioning twin only)."""
+    initial composition, eps_t: of the duration / time scale of the temperature programme; for the conditioning twins only)."""
     from mc import precip
     from kawin.solver.Solver import SolverType
     n = case['nphases']
@@ -82,7 +82,7 @@ def _run_precip(case, order, eps=0.0):
     cons['dtScale'] = DTSCALE
     x0 = 0.01 * (1 + eps) if case['system'] == 'bin' else [0.02 * (1 + eps), 0.01 * (1 - eps)]
     cfg = {'system': case['system'], 'nphases': n, 'phase_order': list(order), 'site': [sites[i] for i in order],
-           'it': case['it'], 'temp': case['temp'], 'tf': case.get('tf', 20.0), 'constraints': cons, 'x0': x0,
+           'it': case['it'], 'temp': case['temp'], 'tf': case.get('tf', 20.0) * (1 + eps_t), 'constraints': cons, 'x0': x0,
            'max_steps': case.get('horizon', HORIZON), 'record': False}
     m, therm, c = precip.build_model(cfg)
     if case.get('parents'):
@@ -126,14 +126,15 @@ def _conditioning_horizon(case, m0):
     Permuting the phases changes the order of floating-point sums over phases (np.sum(volFrac), np.sum(fconc, axis=0)), i.e.
     perturbs every step by ~1 ulp.  Some configurations (dissolution on heating, a class crossing the minimum radius, a flux
     limiter switching) amplify 1 ulp to 1e-1 within four steps *for a fixed phase order*.  That is sensitivity of the
-    trajectory, not dependence on the order.  It is measured, not assumed: the identity order is run twice more with the
-    initial composition moved by +-2 ulp; the comparison horizon ends two steps before either twin first deviates by more than
-    TWIN_TOL (1e-10 = TOL_HIST / 1000) in any recorded quantity or takes a different number of steps."""
+    trajectory, not dependence on the order.  It is measured, not assumed: the identity order is run four more times with the
+    initial composition, respectively the duration (time scale of the temperature programme), moved by +-2 ulp; the comparison
+    horizon ends two steps before any twin first deviates by more than TWIN_TOL (1e-10 = TOL_HIST / 1000) in any recorded quantity
+    or takes a different number of steps."""
     ident = tuple(range(case['nphases']))
     d0 = m0.pData
     h = d0.n
-    for eps in (4e-16, -4e-16):
-        mt, _ = _run_precip(case, ident, eps=eps)
+    for eps, eps_t in ((4e-16, 0.0), (-4e-16, 0.0), (0.0, 4e-16), (0.0, -4e-16)):
+        mt, _ = _run_precip(case, ident, eps=eps, eps_t=eps_t)
         prof = _profiles(d0, mt.pData, ident)
         worst = np.max(np.stack(list(prof.values())), axis=0)
         # the perturbation itself is 4e-16 in composition[0]; everything above TWIN_TOL is amplification
@@ -143,6 +144,28 @@ def _conditioning_horizon(case, m0):
             k = min(k, min(mt.pData.n, d0.n) - 2)
         h = min(h, k)
     return max(h, 0)
+
+
+def _temperature_rule_flipped(m0, m1, n):
+    """True when the step taken from recorded row n was decided differently in the two runs on a knife edge of kawin's
+    temperature rule.
+
+    computeDTfromTemperature limits the step only `if Tchange > maxNonIsothermalDT` and then returns dtPrev * maxNonIsothermalDT /
+    Tchange, i.e. it steers the next temperature change to exactly maxNonIsothermalDT and tests the result with `>`: while the rule
+    is the binding one, whether it fires again is decided by the last bit of the time stamps (seen: 702.471114619332 -
+    701.471114619332 = 1.0 in one phase order, 1 + 2e-13 in the other, with every recorded quantity equal to 4e-14 before).
+    A run pair that separates at such a step - temperature change within 1e-9 relative of the limit in both runs, `>` true in
+    exactly one of them - is not compared beyond it."""
+    fired = []
+    for m in (m0, m1):
+        c, d = m.constraints, m.pData
+        if not c.checkTemperature or n < 1 or n > d.n:
+            return False
+        change = float(d.temperature[n] - d.temperature[n - 1])
+        if abs(change - c.maxNonIsothermalDT) > 1e-9 * abs(float(d.temperature[n])):
+            return False
+        fired.append(change > c.maxNonIsothermalDT)
+    return fired[0] != fired[1]
 
 
 def run_phase_perm(case):
@@ -183,17 +206,24 @@ def run_phase_perm(case):
                      or any(np.any(prof[a] > TOL_HIST) for a in GLOBAL_ATTRS + PHASE_ATTRS) for _, m1, err1, prof in runs)
     H = _conditioning_horizon(case, m0) if suspicious else steps
     maxerr = 0.0
+    knife = 0
+    cut_pairs = []
     for order, m1, err1, prof in runs:
         d1 = m1.pData
         K = min(H, len(prof['time']) - 1)          # compare steps 0..K
         et = prof['time'][:K + 1]
         if np.any(et > TOL_TIME):
             j = int(np.argmax(et > TOL_TIME))
-            bad('time-grid', 'order %r vs order %r: time stamp of step %d is %r vs %r (rel %.3g; %d vs %d steps in all); the steps '
-                'before agree; ulp-perturbed twins of the reference order agree to %.0e up to step %d'
-                % (ident, order, j, float(d0.time[j]), float(d1.time[j]), et[j], d0.n, d1.n, TWIN_TOL, H + 2))
-            continue
-        if H >= steps and (d0.n != d1.n or err0 != err1):
+            if _temperature_rule_flipped(m0, m1, j - 1):
+                knife += 1
+                K = j - 1            # compare this pair up to the knife-edge step only
+                cut_pairs.append(K)
+            else:
+                bad('time-grid', 'order %r vs order %r: time stamp of step %d is %r vs %r (rel %.3g; %d vs %d steps in all); the steps '
+                    'before agree; ulp-perturbed twins of the reference order agree to %.0e up to step %d'
+                    % (ident, order, j, float(d0.time[j]), float(d1.time[j]), et[j], d0.n, d1.n, TWIN_TOL, H + 2))
+                continue
+        if H >= steps and K >= min(d0.n, d1.n) and (d0.n != d1.n or err0 != err1):
             bad('time-grid', 'order %r takes %d steps (%s), order %r takes %d steps (%s)' % (ident, d0.n, err0 or 'finished', order, d1.n, err1 or 'finished'))
             continue
         devs = []
@@ -214,25 +244,26 @@ def run_phase_perm(case):
                    TWIN_TOL, H + 2))
             continue
         # final size distributions (only when the whole run is inside the conditioning horizon)
-        if H >= steps and d0.n == d1.n:
+        if H >= steps and d0.n == d1.n and K >= d0.n:
             for j, p in enumerate(order):
                 b0, b1 = m0.PBM[p], m1.PBM[j]
                 if b0.bins != b1.bins or np.any(_relerr(b0.PSDbounds, b1.PSDbounds) > TOL_HIST):
                     bad('final-grid', 'order %r vs %r: phase %s ends on %d classes up to %r vs %d classes up to %r'
                         % (ident, order, names0[p], b0.bins, b0.PSDbounds[-1], b1.bins, b1.PSDbounds[-1]))
                 else:
-                    e = _relerr(b0.PSD, b1.PSD)
-                    # classes holding 1e-12 of the fullest class are rounding residue of the transport scheme
-                    big = np.maximum(np.abs(b0.PSD), np.abs(b1.PSD)) > 1e-12 * max(float(np.max(np.abs(b0.PSD))), 1e-300)
-                    if np.any(e[big] > TOL_HIST):
-                        bad('final-psd', 'order %r vs %r: final PSD of phase %s differs by rel %.3g' % (ident, order, names0[p], float(np.max(e[big]))))
+                    # relative to the fullest class: single classes at the steep front of a distribution respond more strongly to a
+                    # 1e-9 difference in the growth rates than the moments in the histories do
+                    top = max(float(np.max(np.abs(b0.PSD))), float(np.max(np.abs(b1.PSD))))
+                    e = float(np.max(np.abs(b0.PSD - b1.PSD))) / top if top > 0 else 0.0
+                    if e > TOL_HIST:
+                        bad('final-psd', 'order %r vs %r: final PSD of phase %s differs by %.3g of its fullest class' % (ident, order, names0[p], e))
     populated = int(np.sum(np.max(d0.precipitateDensity[:H + 1], axis=0) > 0))
     oc = '%s/n=%d/only=%s/%s/bound=%s/pop=%d/%s' % (case['system'], n, case['only'], err0 or 'finished', 'yes' if bound else 'no', populated,
-                                                    'identical' if maxerr == 0 and not suspicious else ('full' if H >= steps else 'cut'))
+                                                    'identical' if maxerr == 0 and not suspicious else ('knife-edge' if knife else ('full' if H >= steps else 'cut')))
     return {'viol': viol, 'states': (min(H, steps) + 1) * (nperm + 1), 'transitions': min(H, steps) * nperm, 'traces': nperm + (3 if suspicious else 1),
             'outcome': oc, 'nontrivial': bound > 0 and populated >= 2 and H >= 20,
-            'info': {'steps': int(steps), 'compared_steps': int(min(H, steps)), 'bound_steps': bound, 'max_rel_err': maxerr,
-                     'orders': nperm + 1, 'final_volFrac': [float(v) for v in d0.volFrac[-1]]}}
+            'info': {'steps': int(steps), 'compared_steps': int(min([H, steps] + cut_pairs)), 'bound_steps': bound, 'max_rel_err': maxerr,
+                     'orders': nperm + 1, 'temperature_rule_knife_edges': knife, 'final_volFrac': [float(v) for v in d0.volFrac[-1]]}}
 
 
 def phase_cases(quick):
@@ -241,7 +272,7 @@ def phase_cases(quick):
         'nphases': [2, 3],
         'it': ['euler', 'rk4'],
         # 'hrh' = hold 700 K, ramp to 900 K, hold: isothermal steps (the PSD rule only acts there) and ramp steps (temperature rule)
-        'temp': ['hrh'] if quick else ['iso', 'hrh', 'heat'],
+        'temp': ['hrh'] if quick else ['iso', 'hrh', 'heat', 'updown'],
         'only': CONSTRAINTS + ['all'],
         'sites': ['mixed'] if quick else ['mixed', 'same', 'gb', 'mixed+parents'],
         'horizon': [150 if quick else HORIZON],
@@ -269,6 +300,8 @@ def run(ctx):
                        'only the solutes are permuted (the reference element stays first), as the property states',
                        'phase-permuted runs are compared on the steps on which +-2 ulp twins of the reference run agree to 1e-10 '
                        '(measured per case, only when a deviation is seen); steps behind that horizon are counted as not compared',
+                       'a run pair that separates at a step where the temperature rule was decided differently on its knife edge (temperature '
+                       'change equal to maxNonIsothermalDT to 1e-9 relative in both runs, ">" true in one only) is not compared beyond that step',
                        'pycalphad accepts an equilibrium when site fractions moved < 5e-9 in the last Newton step; two objects that differ '
                        'in the insertion order of the composition conditions were observed to agree to 2e-10 (tolerance 1e-8)']
     ec, dc, pc = element_cases(quick), diffusion_cases(quick), phase_cases(quick)
@@ -326,11 +359,13 @@ def _none(v):
     return v is None or (isinstance(v, np.ndarray) and v.dtype == object)
 
 
-def _cmp(viol, seen, sigbase, what, a, b, tol, tag, mode='max'):
+def _cmp(viol, seen, sigbase, what, a, b, tol, tag, mode='max', floor=0.0):
     """a: reference (already re-ordered), b: permuted object's answer.  mode 'max': error relative to the largest entry of
     the object (an off-diagonal diffusivity 1e-6 of the diagonal carries the diagonal's rounding); 'rows': the same per row
     (mobility rows of different phases, -1 rows for phases without mobility data); 'comp': element-wise for mole fractions,
-    with an absolute floor of 1e-12 (pycalphad's smallest allowed mass residual)."""
+    with an absolute floor of 1e-12 (pycalphad's smallest allowed mass residual).  floor: lower bound of the scale - a driving
+    force is a difference of chemical potentials and passes through zero at the solvus, so its error is measured against
+    max(|DF|, R T), the natural size of the chemical potentials it is built from."""
     def report(kind, msg):
         sig = sigbase + '/' + what + kind
         if sig not in seen:
@@ -358,7 +393,7 @@ def _cmp(viol, seen, sigbase, what, a, b, tol, tag, mode='max'):
         scale = np.max(m, axis=-1, keepdims=True)
         err = float(np.max(np.where(scale > 0, d / np.where(scale > 0, scale, 1.0), np.where(d > 0, np.inf, 0.0))))
     else:
-        scale = float(np.max(m))
+        scale = max(float(np.max(m)), floor)
         err = float(np.max(d)) / scale if scale > 0 else 0.0
     if not (err <= tol):
         report('', '= %s in the reference order (re-ordered) but %s in the permuted order (rel %.3g > %g)'
@@ -474,7 +509,8 @@ def run_element_point(case):
             tol = TOL_SAMPLING if key[0] == 'DF' and key[2] == 'sampling' else TOL_QUERY
             mode = 'rows' if key == ('mob', 'mobility') else ('comp' if key[-1] in COMPOSITION_KEYS else 'max')
             e = _cmp(viol, seen, 'elements/%s' % sysname, what if key[0] not in ('DF', 'IC', 'curv', 'growth', 'beta') else
-                     '/'.join([key[0]] + [str(k) for k in key[2:]]) + '/' + key[1], a, b, tol, tag, mode)
+                     '/'.join([key[0]] + [str(k) for k in key[2:]]) + '/' + key[1], a, b, tol, tag, mode,
+                     floor=8.314 * T if (key[0] == 'DF' and key[-1] == 'dg') else 0.0)
             errs[key[0]] = max(errs.get(key[0], 0.0), e)
             if key[0] == 'curv' and key[2] == 'mc' and not _none(a):
                 stable.add(key[1])
